@@ -24,7 +24,8 @@ MAX_SHARDS = 2
 RULE = ('case = history of <= 12 (quick) / 25 (thorough) public operations + one final query, evaluated in a forked pristine process: '
         'is_bearable / die_if_unbearable / is_subhint / TypeHint == / decorate-and-call over hints built fresh but structurally equal, '
         'hash-equal look-alikes (Literal[1]/[True]/[0]/[False], 1/True/1.0 in Annotated metadata), unhashable hints (Annotated[T, []]), '
-        'dynamically (re)defined same-named classes (distinct class objects with one qualified name, optionally @beartype-decorated), '
+        'dynamically (re)defined same-named classes (distinct class objects with one qualified name, optionally @beartype-decorated; '
+        'hot-reload chains of 2-7 decorated generations), '
         'string forward references that fail first and are defined later, dropping references + gc.collect() followed by look-alike '
         'allocations, and beartype\'s own cache clearing. Oracle: the same final query in a sibling fork with no history (verdict / exception '
         'class), plus idempotence (asking twice in one process gives the same answer). non-trivial = the history contains an operation whose '
@@ -116,6 +117,25 @@ def related(q):
 @st.composite
 def _case(draw, tier):
     d = draw(st.sampled_from([0, 1, 1, 2]))
+    if draw(st.integers(0, 5)) == 0:
+        # hot-reload chain: the same @beartype-decorated class is (re)defined k times under one module and name, each generation
+        # being used inside a hint CPython does not cache itself; the last generation must be answered like in a fresh process
+        k = draw(st.integers(2, 6))
+        w = draw(st.sampled_from(['list', 'dict', 'tuple', 'set', 'pipe', 'listlist']))
+        leaf = ['dyn', 'Hot', 'v1']
+        hint = {'list': ['list', leaf], 'dict': ['dict', leaf], 'tuple': ['tuple', leaf], 'set': ['set', leaf], 'pipe': ['pipe', leaf, ['str']],
+                'listlist': ['list', ['list', leaf]]}[w]
+        val = ['inst', 'Hot', 'v1']
+        value = {'list': ['list', [val]], 'dict': ['dictv', val], 'tuple': ['tuple', [val]], 'set': ['setv', val], 'pipe': val,
+                 'listlist': ['list', [['list', [val]]]]}[w]
+        q = [draw(st.sampled_from(['is_bearable', 'die', 'call'])), hint, value]
+        hist = []
+        for _ in range(k):
+            hist.append(['redefine', 'Hot', 'v1', True])
+            if draw(st.integers(0, 3)):
+                hist.append(q)
+        hist.append(['redefine', 'Hot', 'v1', True])
+        return {'history': hist, 'final': q, 'late_defined': False, 'chain': True}
     final = draw(st.one_of(queries(d), focused_query(), focused_query()))
     n = draw(st.integers(0, 12 if tier == 'quick' else 25))
     hist = []
@@ -148,6 +168,7 @@ class World:
         sys.modules['c14mod'] = self.mod
         self.funcs = {}
         self.keepalive = []
+        self.created = {}      # name -> list of booleans: was the i-th class object of that name @beartype-decorated
 
     def cls(self, name, variant, decorated=False):
         key = (name, variant)
@@ -155,6 +176,7 @@ class World:
             bases = (self.cls(name, 'v1'),) if variant == 'v3' else ()
             ns = {'__module__': 'c14mod', '__qualname__': name, 'variant': variant}
             c = type(name, bases, ns)
+            self.created.setdefault(name, []).append(bool(decorated))
             if decorated:
                 from beartype import beartype
                 c = beartype(c)
@@ -266,7 +288,9 @@ class World:
                     a, b = TypeHint(self.hint(op[1])), TypeHint(self.hint(op[2]))
                     return ['bool', a == b, 'samehash' if hash(a) == hash(b) else 'diffhash'] if False else ['bool', a == b]
                 if k == 'call':
-                    key = repr(op[1])
+                    # one wrapper per (hint, generation of the classes it names): a wrapper built for an earlier generation
+                    # of a redefined class legitimately keeps checking against that generation
+                    key = (repr(op[1]), tuple(sorted((n, v, id(self.cls(n, v))) for n, v in _dyn_variants(op[1]))))
                     f = self.funcs.get(key)
                     if f is None:
                         def g(p):
@@ -292,7 +316,7 @@ def _child(case):
         w.run(['define_late'])
     a1 = w.run(case['final'])
     a2 = w.run(case['final'])
-    return {'answers': answers, 'final': a1, 'again': a2}
+    return {'answers': answers, 'final': a1, 'again': a2, 'created': w.created}
 
 
 def _mentions(h, pred):
@@ -326,7 +350,10 @@ def run_case(case):
     if not case['history']:
         b = a
     else:
-        b = isolate.call(_child, {'history': [['define_late']] if late_in_hist else [], 'final': final}, timeout=60)
+        ref_hist = [['define_late']] if late_in_hist else []
+        if case.get('chain'):
+            ref_hist = [['redefine', 'Hot', 'v1', True]]
+        b = isolate.call(_child, {'history': ref_hist, 'final': final}, timeout=60)
     fails = []
     def hint_part(op):
         if op[0] in ('is_subhint', 'typehint_eq'):
@@ -339,7 +366,13 @@ def run_case(case):
     same_name_other_variant = any((n, v) not in names_final and any(n == n2 for n2, _v in names_final) for n, v in names_hist)
     redefined = any(op[0] == 'redefine' and any(op[1] == n for n, _v in names_final) for op in case['history'])
     if a['final'] != b['final']:
-        lab = ('same-named-class' if (same_name_other_variant or redefined) and names_final else
+        # the listed known finding (repr-keyed coercion cache) concerns same-named classes beartype never saw being redefined;
+        # when every class object of the names involved was @beartype-decorated, beartype detects the redefinition and clears
+        # its caches, so a history dependence there is NOT the known finding
+        involved = {n for n, _v in names_final}
+        all_decorated = bool(involved) and all(a.get('created', {}).get(n) and all(a['created'][n]) for n in involved)
+        lab = ('decorated-class-redefinition' if (same_name_other_variant or redefined) and names_final and all_decorated else
+               'same-named-class' if (same_name_other_variant or redefined) and names_final else
                'forward-ref' if _mentions(final, lambda h: h[0] == 'fwd') else final[0])
         fails.append({'sig': 'history-dependent:%s' % lab,
                       'detail': 'final=%r fresh process -> %r; after history %r -> %r' % (final, b['final'], case['history'], a['final'])})
